@@ -273,6 +273,11 @@ type avErr struct{ typ string }
 
 func (v avErr) avKey() string { return "err:" + v.typ }
 
+// avRef is a pointer to a struct whose fields are tracked in state.flds under the reference id.
+type avRef struct{ id string }
+
+func (v avRef) avKey() string { return "&" + v.id }
+
 type avPanic struct{}
 
 func (avPanic) avKey() string { return "PANIC" }
@@ -354,14 +359,16 @@ type interp struct {
 	// evalLeaf lets an engine give meaning to expressions the core does not model.
 	evalLeaf func(in *interp, st *state, e ast.Expr) (AV, bool)
 	// condHook may decide an otherwise unknown condition.
-	steps     int
-	maxSteps  int
-	overflow  bool
-	memo      map[string][]AV
-	curFn     []*ast.FuncDecl
-	notes     []string
-	roundIDs  int
-	curAssign *ast.AssignStmt
+	steps      int
+	maxSteps   int
+	overflow   bool
+	memo       map[string][]AV
+	curFn      []*ast.FuncDecl
+	notes      []string
+	roundIDs   int
+	curAssign  *ast.AssignStmt
+	callerFlds map[string]AV // fields reachable through references, visible to an inlined callee
+	lastFlds   map[string]AV // ref fields as left by the last inlined call (single-outcome calls only)
 	// inlineAll interprets every package function that is neither an intrinsic nor denied.
 	inlineAll bool
 	noInline  []string // name prefixes never inlined
@@ -375,6 +382,13 @@ func newInterp(p *Prog) *interp {
 // set of abstract results (return values or PANIC), deduplicated.
 func (in *interp) runFunc(fd *ast.FuncDecl, recv AV, args []AV) []AV {
 	st := newState()
+	if in.callerFlds != nil {
+		for k, v := range in.callerFlds {
+			if strings.HasPrefix(k, "ref:") {
+				st.flds[k] = v
+			}
+		}
+	}
 	if fd.Recv != nil && len(fd.Recv.List) == 1 && len(fd.Recv.List[0].Names) == 1 {
 		st.vars[in.p.Info.Defs[fd.Recv.List[0].Names[0]]] = recv
 	}
@@ -396,6 +410,35 @@ func (in *interp) runFunc(fd *ast.FuncDecl, recv AV, args []AV) []AV {
 	in.curFn = append(in.curFn, fd)
 	flows := in.execBlock(fd.Body.List, st)
 	in.curFn = in.curFn[:len(in.curFn)-1]
+	// referenced fields as left by the callee: agreed values, Top where paths disagree
+	last := map[string]AV{}
+	first := true
+	for _, f := range flows {
+		if f.kind != flowReturn && f.kind != flowNext {
+			continue
+		}
+		cur := map[string]AV{}
+		for k, v := range f.st.flds {
+			if strings.HasPrefix(k, "ref:") {
+				cur[k] = v
+			}
+		}
+		if first {
+			last, first = cur, false
+			continue
+		}
+		for k, v := range cur {
+			if w, ok := last[k]; !ok || w.avKey() != v.avKey() {
+				last[k] = top
+			}
+		}
+		for k := range last {
+			if _, ok := cur[k]; !ok {
+				last[k] = top
+			}
+		}
+	}
+	in.lastFlds = last
 	seen := map[string]bool{}
 	var out []AV
 	for _, f := range flows {
@@ -712,6 +755,17 @@ func (in *interp) execAssign(x *ast.AssignStmt, st *state) []flow {
 	return outs
 }
 
+// fieldKey returns the state key of x.f: by reference id when x holds an avRef, else by object.
+func (in *interp) fieldKey(x ast.Expr, field string, st *state) (string, bool) {
+	if o := in.p.objOf(x); o != nil {
+		if r, ok := st.vars[o].(avRef); ok {
+			return "ref:" + r.id + "." + field, true
+		}
+		return fmt.Sprintf("%p.%s", o, field), true
+	}
+	return "", false
+}
+
 // store writes v to the lvalue l in st (st must be owned by the caller).
 func (in *interp) store(l ast.Expr, v AV, st *state) {
 	l = ast.Unparen(l)
@@ -734,8 +788,8 @@ func (in *interp) store(l ast.Expr, v AV, st *state) {
 			}
 		}
 	case *ast.SelectorExpr:
-		if o := in.p.objOf(x.X); o != nil {
-			st.flds[fmt.Sprintf("%p.%s", o, x.Sel.Name)] = v
+		if k, ok := in.fieldKey(x.X, x.Sel.Name, st); ok {
+			st.flds[k] = v
 			return
 		}
 		// deeper selectors (args.padZero via pointer) - o.f.g not tracked
@@ -1056,8 +1110,8 @@ func (in *interp) assignedIn(n ast.Node) map[string]types.Object {
 				m[fmt.Sprintf("%p", o)] = o
 			}
 		case *ast.SelectorExpr:
-			if o := in.p.objOf(x.X); o != nil {
-				m[fmt.Sprintf("%p.%s", o, x.Sel.Name)] = nil
+			if in.p.objOf(x.X) != nil {
+				m["."+x.Sel.Name] = nil
 			}
 		case *ast.IndexExpr:
 			if o := in.p.objOf(x.X); o != nil {
@@ -1092,11 +1146,16 @@ func (in *interp) havoc(s *state, assigned map[string]types.Object, all bool) *s
 			}
 			ns.vars[o] = top
 		} else {
-			v := ns.flds[k]
-			if !all && isFinite(v) {
-				continue
+			// k is ".field": every tracked field of that name (whatever the base) is forgotten
+			for fk, v := range ns.flds {
+				if !strings.HasSuffix(fk, k) {
+					continue
+				}
+				if !all && isFinite(v) {
+					continue
+				}
+				ns.flds[fk] = top
 			}
-			ns.flds[k] = top
 		}
 	}
 	return ns
@@ -1348,8 +1407,8 @@ func (in *interp) evalMulti(e ast.Expr, st *state) []AV {
 		}
 		return []AV{top}
 	case *ast.SelectorExpr:
-		if o := in.p.objOf(x.X); o != nil {
-			if v, ok := st.flds[fmt.Sprintf("%p.%s", o, x.Sel.Name)]; ok {
+		if k, ok := in.fieldKey(x.X, x.Sel.Name, st); ok {
+			if v, ok := st.flds[k]; ok {
 				return []AV{v}
 			}
 		}
@@ -1708,12 +1767,37 @@ func (in *interp) evalCall(call *ast.CallExpr, st *state) []AV {
 			for _, a := range args {
 				key += "," + a.avKey()
 			}
-			if res, ok := in.memo[key]; ok {
-				return res
+			hasRef := false
+			if _, ok := recv.(avRef); ok {
+				hasRef = true
+			}
+			for _, a := range args {
+				if _, ok := a.(avRef); ok {
+					hasRef = true
+				}
+			}
+			if !hasRef {
+				if res, ok := in.memo[key]; ok {
+					return res
+				}
 			}
 			in.depth++
+			savedFlds := in.callerFlds
+			if hasRef {
+				in.callerFlds = st.flds
+			} else {
+				in.callerFlds = nil
+			}
 			res := in.runFunc(fd, recv, args)
+			in.callerFlds = savedFlds
 			in.depth--
+			if hasRef {
+				// effects of the callee on referenced fields become visible to the caller
+				for k, v := range in.lastFlds {
+					st.flds[k] = v
+				}
+				return res
+			}
 			// PANIC inside a callee propagates as a value; callers treat it as an outcome
 			in.memo[key] = res
 			return res
